@@ -93,7 +93,7 @@ def P_for(gen_cfg, n_random, design, num):
     }
 
 
-P = P_for("Gen_sim.cfg", (100, 1200), DESIGN, (35, 500))
+P = P_for("Gen_sim.cfg", (100, 900), DESIGN, (35, 400))
 
 REPROS = [
     ("F1-early-delete-forgets-belief", "repro_F1_early_delete.json",
@@ -165,7 +165,7 @@ def extra_behaviours(ctx):
     """Behaviours from the other generator configurations (RemoveExternalRoutes off; conntrack cleanup on),
     replayed in the same driver run as the main generator's."""
     paths = []
-    for cfg, num in (("Gen_sim_noext.cfg", (0, 300)), ("Gen_sim_ct.cfg", (25, 300))):
+    for cfg, num in (("Gen_sim_noext.cfg", (0, 200)), ("Gen_sim_ct.cfg", (25, 200))):
         if ctx.quick and not num[0]:
             continue        # RemoveExternalRoutes = false is covered by the seeded random histories in the quick tier
         sim = {"num": num[0] if ctx.quick else num[1], "depth": 700}
@@ -186,6 +186,11 @@ def run(ctx):
     import time
     t0 = time.time()
     Pm = dict(P)
+    if not ctx.quick:
+        # second exhaustive design run: the other failure kinds (listing, LinkByName incl. the lying variant,
+        # reconnect) on the one-interface universe
+        Pm["design"] = DESIGN + [{"module": "I_Routes", "cfg": "MC_I_Routes_faults.cfg", "workers": 4, "heap": "4g",
+                                  "thorough_timeout": 1500, "allow_zero": ()}]
     if not ctx.replay:
         Pm["driver"] = {"cmd": "routes", "env": {"VERIF_BEH_EXTRA": ":".join(extra_behaviours(ctx))}}
     t1 = time.time()
